@@ -16,7 +16,8 @@ RULE = ("kinds: (a) commensurate points of integer matrices (|entries|<=4, det<=
         "(b) round trip FC -> run_qpoints(commensurate, with_dynamical_matrices) -> DynmatToForceConstants(lang C|Py, full|compact) on random "
         "translation-periodic, permutation-symmetric arrays and pair-model constants over zoo supercells incl. non-diagonal ones with Wigner-Seitz-boundary multiplicities; "
         "(c) ph2ph to integer-multiple and non-multiple target supercells (with and without NAC): D unchanged at q commensurate with both; "
-        "non-trivial = det>1 (a), supercell multiplicity N>1 and max|FC|>0 (b,c); distinct = full parameter tuple")
+        "non-trivial = det>1 (a), supercell multiplicity N>1 and max|FC|>0 (b,c); distinct = full parameter tuple; "
+        "additions of rounds 6-8: dynamical matrices handed over as eigen-solutions (numpy's / phonopy's own, negative eigenvalues plentiful); force-constant memory layouts; ph2ph of objects built with the SNF builder / sparse vectors, two more non-diagonal bases")
 ASSUMPTIONS = [
     "the round trip is claimed for permutation-symmetric periodic arrays (D(q) is Hermitised by phonopy, so other arrays are not representable)",
     "ph2ph: only q commensurate with BOTH supercells are compared (a non-multiple target cannot represent the other points)",
